@@ -86,6 +86,7 @@ pub fn run_case2(f: &[&str], _home: &std::path::Path) -> String {
             let e = crate::url::URL::percent_encode(&t); let d = crate::url::URL::percent_decode(&e);
             format!("E {} | D {}", hex(e.as_bytes()), hex(d.as_bytes())) } } }
         "pool" => crate::pool::run_pool(f),
+        "jrt" => crate::jrt::run(f),
         _ => "?".to_string(),
     }
 }
